@@ -9,11 +9,25 @@ Live-object histories (ops 303 / 304) additionally drive every public setter / a
 object: [7,w] max_bit_width = w, [10,c] count = c (in-memory), [0,w] new object of another width,
 [8] file_name = other path, [9] create_new(), [12] next() on a second provider object living on the other
 file with its own width, 13::codes check_count(line); observed after every op.
+Op 399 = explorations outside the model (the model's side is the constant [1]); a[0][0] selects the statement:
+  0  file-system object behind the configured path (FS_LAYOUTS: symbolic link to an existing / to a not yet existing
+     file, relative link, chain of links, link through a linked directory, hard link, `..` components, relative path
+     or the default file name after chdir): a[0] = [0, layout, width, pus], a[1] = initial content, a[2:] = the history
+     ops of op 301.  Statement: every returned count / exception class and the content read through the path after
+     every step are those of the same history on a regular file, the path stays the kind of object it was, and the
+     file it finally refers to is the one holding the count.
+  1  a user subclass of SeqCountProvider whose max_bit_width is not the stored attribute (property reading a shared
+     link configuration / constant class attribute): a[0] = [1, variant, constructor width, configured width],
+     a[1:] = ops of op 303 where [7, w] changes the CONFIGURED width.  Statement: it returns what the library class
+     returns when the same widths are assigned through its setter at the same moments.
+  2  the same for FileSeqCountProvider: a[0] = [2, variant, constructor width, configured width], a[1] = content,
+     a[2:] = ops [0] new object [1] next [2] current [7, w] configured width 13::codes check_count.
 """
 import itertools, os, re, shutil, tempfile
 from pathlib import Path
 from spacepackets import seqcount as S
 from harness import core
+from harness.props.c13 import _Clock     # simulated pauses between calls (see c13.py)
 
 ID = "C19"
 ENUMS = [
@@ -28,6 +42,8 @@ ASSUMPTIONS = [
     "as out of range - the same class for every width below ~14000 bits (a numeral padded with > 4300 leading zeros is "
     "refused by int() although its value is small: outside the model)",
     "max_bit_width >= 0",
+    "pauses between calls (and between a stop and the next instance) are simulated through the time module's clock functions "
+    "(harness/props/c13.py _Clock), not waited for; file time stamps kept by the operating system are real",
 ]
 TRUSTED = ["the adapter's temporary-file handling (tempfile.mkdtemp, read_bytes after each call)"]
 EXPLORED_ONLY = [
@@ -37,6 +53,14 @@ EXPLORED_ONLY = [
     "non-ASCII file content (Unicode digits are accepted by str.isdigit and int; invalid UTF-8 raises UnicodeDecodeError, "
     "a ValueError): explored on the implementation only with the oracle 'ValueError, or a count in range and a valid file "
     "afterwards' (stream explored_non_ascii); outside the model's alphabet, not proved",
+    "stream explored_path_objects (op 399): the configured path is a symbolic link (to an existing file, to a file that "
+    "does not exist yet, relative, chained, through a linked directory), a hard link, a path with .. components, a relative "
+    "path or the default file name after chdir; statement: same counts, exceptions and file content as on a regular file, "
+    "the link stays a link and its target holds the count.  File-system semantics are outside the model",
+    "stream explored_width_overriding_subclasses (op 399): user subclasses of SeqCountProvider / FileSeqCountProvider that "
+    "override the abstract max_bit_width property (shared link configuration, read-only computed property, class "
+    "attribute) count like the library class whose width is assigned through the setter at the same moments "
+    "('modulo 2^width for the width configured at that moment'); user subclasses are outside the model",
 ]
 ORACLE_LIMIT = {"quick": 100000, "thorough": 1000000}
 
@@ -73,11 +97,19 @@ def _err(e):
 
 
 def _file_history(w, content, ops, pus):
+    # two histories out of three: simulated pauses (c13._Clock: seconds .. minutes / hours .. years) between the calls; a
+    # process that stops and a new instance much later are what the property's restart clause is about
+    with _Clock((len(ops) + w + (len(content) if content else 0)) % 3) as clock:
+        return _file_history_clocked(w, content, ops, pus, clock)
+
+
+def _file_history_clocked(w, content, ops, pus, clock):
     env = _Env(w, content, pus)
     try:
         out = [env.file()]
         flip = 0
-        for o in ops:
+        for n_, o in enumerate(ops):
+            clock.advance(n_)
             k = o[0]
             if k == 0:
                 env.new(); r = [0]
@@ -148,11 +180,17 @@ def _call(fn):
 
 
 def _world_history(w, pus, w2, ca, cb, ops):
+    with _Clock((len(ops) + w + w2) % 3) as clock:
+        return _world_history_clocked(w, pus, w2, ca, cb, ops, clock)
+
+
+def _world_history_clocked(w, pus, w2, ca, cb, ops, clock):
     env = _Env2(w, pus, w2, ca, cb)
     try:
         out = env.obs()
         flip = 0
-        for o in ops:
+        for n_, o in enumerate(ops):
+            clock.advance(n_)
             k = o[0]
             if k == 0:
                 env.prov = env.make(o[1], env.prov.file_name); r = [0]
@@ -198,6 +236,260 @@ def _world_history(w, pus, w2, ca, cb, ops):
         env.close()
 
 
+
+# ---------------------------------------------------------------- explorations (op 399)
+FS_LAYOUTS = ["regular file", "symbolic link to the file", "symbolic link, target in another directory (created on first use)",
+              "relative symbolic link", "chain of two symbolic links", "file inside a directory reached through a linked directory",
+              "hard link", "path with .. components", "relative path after chdir", "default file name after chdir",
+              "relative path with .. after chdir"]
+core.NO_THREAD_OPS.add(399)      # layouts 8..10 change the working directory of the process for the duration of the call
+
+
+class _FsEnv:
+    """a fresh directory in which the configured path is the requested kind of file-system object; `target` is the
+    plain name of the file that finally holds the count"""
+    def __init__(self, layout, content):
+        self.dir = tempfile.mkdtemp(prefix="c19-")
+        d = Path(self.dir)
+        self.layout, self.cwd, self.default_name = layout, None, False
+        self.links = []                     # paths that must stay symbolic links
+        (d / "nvram").mkdir()
+        (d / "run").mkdir()
+        if layout == 0:
+            self.path = self.target = d / "seqcnt.txt"
+        elif layout == 1:
+            self.path, self.target = d / "seqcnt.txt", d / "real.txt"
+            os.symlink(self.target, self.path)
+        elif layout == 2:
+            self.path, self.target = d / "run" / "seqcnt.txt", d / "nvram" / "seqcnt.txt"
+            os.symlink(self.target, self.path)
+        elif layout == 3:
+            self.path, self.target = d / "run" / "seqcnt.txt", d / "nvram" / "count"
+            os.symlink(os.path.join("..", "nvram", "count"), self.path)
+        elif layout == 4:
+            self.path, mid, self.target = d / "seqcnt.txt", d / "run" / "current", d / "nvram" / "seqcnt.txt"
+            os.symlink(self.target, mid)
+            os.symlink(mid, self.path)
+            self.links.append(mid)
+        elif layout == 5:
+            os.symlink(d / "nvram", d / "state")
+            self.path, self.target = d / "state" / "seqcnt.txt", d / "nvram" / "seqcnt.txt"
+        elif layout == 6:
+            self.path, self.target = d / "seqcnt.txt", d / "nvram" / "other-name.txt"
+        elif layout == 7:
+            self.path, self.target = d / "run" / ".." / "nvram" / ".." / "seqcnt.txt", d / "seqcnt.txt"
+        elif layout == 8:
+            self.path, self.target, self.cwd = Path("seqcnt.txt"), d / "seqcnt.txt", d
+        elif layout == 9:
+            self.path, self.target, self.cwd, self.default_name = Path("seqcnt.txt"), d / "seqcnt.txt", d, True
+        elif layout == 10:
+            self.path, self.target, self.cwd = Path("..") / "nvram" / "count.txt", d / "nvram" / "count.txt", d / "run"
+        else:
+            raise RuntimeError("bad layout")
+        if layout in (1, 2, 3, 4):
+            self.links.append(self.path)
+        self.hard = False                   # path and target are two names of one file
+        if layout == 6 and content is None:
+            self.target = self.path         # nothing to link to yet: a plain missing file
+        if content is not None:
+            self.target.write_bytes(bytes(content))
+            if layout == 6:
+                os.link(self.target, self.path)
+                self.hard = True
+        self.old_cwd = None
+        if self.cwd is not None:
+            self.old_cwd = os.getcwd()
+            os.chdir(self.cwd)
+
+    def make(self, w, pus):
+        if self.default_name:
+            return S.PusFileSeqCountProvider() if pus else S.FileSeqCountProvider(w)
+        return S.PusFileSeqCountProvider(self.path) if pus else S.FileSeqCountProvider(w, self.path)
+
+    def delete(self):
+        """the count file is deleted from outside (for a link: the file it refers to)"""
+        for p_ in {self.target, self.path}:
+            if not os.path.islink(p_) and p_.exists():
+                os.remove(p_)
+        if self.hard:
+            self.hard, self.target = False, self.path
+
+    def obs(self):
+        """content read through the configured path; -1 when the object behind the path is no longer what was configured"""
+        seen = _file_arg(self.path.read_bytes() if self.path.exists() else None)
+        direct = _file_arg(self.target.read_bytes() if self.target.exists() else None)
+        if seen != direct or any(not os.path.islink(l) for l in self.links) or \
+                (self.hard and not (self.path.exists() and os.path.samefile(self.path, self.target))):
+            return [-1] + seen
+        return seen
+
+    def close(self):
+        if self.old_cwd is not None:
+            os.chdir(self.old_cwd)
+        shutil.rmtree(self.dir, ignore_errors=True)
+
+
+def _fs_history(layout, w, pus, content, ops):
+    env = _FsEnv(layout, content)
+    try:
+        prov = [None]
+
+        def new():
+            prov[0] = env.make(w, pus)
+            return 0
+        out = [_call(new), env.obs()]
+        flip = 0
+        for o in ops:
+            k = o[0]
+            if k == 0:
+                r = _call(new)
+            elif k == 1:
+                flip ^= 1
+                r = _call((lambda: next(prov[0])) if flip else (lambda: prov[0].get_and_increment()))
+            elif k == 2:
+                r = _call(lambda: prov[0].current())
+            elif k == 3:
+                env.delete(); r = [0]
+            elif k == 4:
+                env.path.write_bytes(bytes(o[1:])); r = [0]
+            elif k in (5, 6):
+                vals, r = [], None
+                for _ in range(o[1]):
+                    try:
+                        if k == 6:
+                            new()
+                        vals.append(next(prov[0]))
+                    except Exception as e:
+                        r = [1, _err(e)] + vals
+                        break
+                if r is None:
+                    r = [0] + vals
+            else:
+                raise RuntimeError("bad history op")
+            out += [r, env.obs()]
+        return out
+    finally:
+        env.close()
+
+
+class _Link:
+    """a configuration object shared by every counter of one link"""
+    def __init__(self, width):
+        self.width = width
+
+
+def _subclass(base, variant, link):
+    if variant == 0:
+        class LinkCounter(base):
+            """width follows the link configuration"""
+            @property
+            def max_bit_width(self):
+                return link.width
+
+            @max_bit_width.setter
+            def max_bit_width(self, width):
+                link.width = width
+        return LinkCounter
+    if variant == 1:
+        class ReadOnlyWidth(base):
+            """the width is computed; assigning it is not supported"""
+            max_bit_width = property(lambda self: link.width)
+        return ReadOnlyWidth
+    if variant == 2:
+        class FixedWidth(base):
+            max_bit_width = link.width         # a plain class attribute satisfies the abstract property as well
+        return FixedWidth
+    raise RuntimeError("bad subclass variant")
+
+
+def _explore_mem_subclass(a):
+    variant, w_ctor, w_link = a[0][1:4]
+    link = _Link(w_link)
+    if variant == 2:
+        ops = [o for o in a[1:] if o[0] != 7]          # a constant: there is no later re-configuration
+    else:
+        ops = a[1:]
+    sub = _subclass(S.SeqCountProvider, variant, link)(w_ctor)
+    ref = S.SeqCountProvider(w_link)
+    for i, o in enumerate(ops):
+        k = o[0]
+        if k == 7:
+            if variant == 0 and i % 2:
+                sub.max_bit_width = o[1]       # the subclass's own setter writes the shared configuration
+            else:
+                link.width = o[1]
+            ref.max_bit_width = o[1]
+            continue
+        if k == 10:
+            sub.count = o[1]
+            ref.count = o[1]
+            continue
+        n = 1 if k == 1 else o[1]
+        for j in range(n):
+            x, y = (next(sub), next(ref)) if (i + j) % 2 else (sub.get_and_increment(), ref.get_and_increment())
+            if x != y or sub.count != ref.count:
+                return [[0, 1, variant, i, j, x, y]]
+    return [[1]]
+
+
+def _explore_file_subclass(a):
+    variant, w_ctor, w_link = a[0][1:4]
+    content = None if (not a[1] or a[1][0] == 0) else a[1][1:]
+    link = _Link(w_link)
+    ops = [o for o in a[2:] if not (variant == 2 and o[0] == 7)]
+    cls = _subclass(S.FileSeqCountProvider, variant, link)
+    envs = [_FsEnv(0, content), _FsEnv(0, content)]
+    try:
+        sub, ref = cls(w_ctor, envs[0].path), S.FileSeqCountProvider(w_link, envs[1].path)
+        if envs[0].obs() != envs[1].obs():
+            return [[0, 2, variant, -1]]
+        for i, o in enumerate(ops):
+            k = o[0]
+            if k == 0:
+                sub, ref = cls(w_ctor, envs[0].path), S.FileSeqCountProvider(ref.max_bit_width, envs[1].path)
+                x = y = [0]
+            elif k == 1:
+                x, y = _call(lambda: next(sub)), _call(lambda: next(ref))
+            elif k == 2:
+                x, y = _call(sub.current), _call(ref.current)
+            elif k == 7:
+                if variant == 0 and i % 2:
+                    sub.max_bit_width = o[1]
+                else:
+                    link.width = o[1]
+                ref.max_bit_width = o[1]
+                x = y = [0]
+            elif k == 13:
+                line = bytes(o[1:]).decode("ascii")
+                x, y = _call(lambda: sub.check_count(line)), _call(lambda: ref.check_count(line))
+            else:
+                raise RuntimeError("bad history op")
+            if x != y or envs[0].obs() != envs[1].obs():
+                return [[0, 2, variant, i] + x[:2] + y[:2]]
+        return [[1]]
+    finally:
+        for e in envs:
+            e.close()
+
+
+def _explore(a):
+    kind = a[0][0]
+    if kind == 0:
+        layout, w, pus = a[0][1], a[0][2], bool(a[0][3]) and a[0][2] == 14
+        content = None if (not a[1] or a[1][0] == 0) else a[1][1:]
+        want = _fs_history(0, w, pus, content, a[2:])
+        got = _fs_history(layout, w, pus, content, a[2:])
+        if got == want:
+            return [[1]]
+        i = next((i for i, (x, y) in enumerate(zip(got, want)) if x != y), min(len(got), len(want)))
+        return [[0, 0, layout, i] + [int(v) for v in got[i][:3]] + [-9] + [int(v) for v in want[i][:3]]]
+    if kind == 1:
+        return _explore_mem_subclass(a)
+    if kind == 2:
+        return _explore_file_subclass(a)
+    raise RuntimeError("bad exploration")
+
+
 # ---- reference reading of a count file, written independently of the implementation and the model
 _LINE = re.compile(rb"([0-9]+)[\t\n\x0b\x0c\r\x1c-\x1f ]*\Z")
 
@@ -226,6 +518,8 @@ def line_count(w, b):
 
 
 def impl(op, a):
+    if op == 399:
+        return _explore(a)
     if op == 303:
         import copy
         p = S.SeqCountProvider(a[0][0])
@@ -506,6 +800,76 @@ def streams(tier, rng):
     for _ in range(400 if big else 100):
         cases.append((302, [[rng.choice([3, 14])], [rng.choice([48, 49, 57, 10, rng.randrange(128, 256), rng.randrange(256)]) for _ in range(rng.randrange(1, 6))]]))
     yield "explored_non_ascii", "exact", cases
+    # 10. exploration only: the file-system object behind the configured path (op 399 kind 0)
+    cases = []
+    for layout in range(1, len(FS_LAYOUTS)):
+        for w, pus in ((3, 0), (14, 1), (14, 0), (1, 0)):
+            top = 2 ** w
+            contents = [None, b"0\n", b"%d\n" % (top - 1), b"junk\n", b"1", b"%d\n" % top]
+            hists = [[[1], [1], [0], [1], [2]], [[5, top + 2 if w <= 3 else 5]], [[6, 4]], [[2], [1], [3], [0], [1], [1]], [[1], [3], [1], [2]],
+                     [[4] + list(b"1\n"), [1], [0], [1]], [[3], [4] + list(b"0\n"), [2], [1], [1]], []]
+            for ci, c in enumerate(contents):
+                for hi, ops in enumerate(hists):
+                    if big or (ci + hi + layout + w) % 3 == 0 or (c is None and hi < 3):
+                        cases.append((399, [[0, layout, w, pus], _file_arg(c)] + ops))
+    for _ in range(3000 if big else 400):
+        w = rng.choice([0, 1, 2, 3, 8, 14])
+        top = 2 ** w
+        start = rng.choice([None, None, b"0\n", b"%d\n" % rng.randrange(top), b"%d\n" % (top - 1), b"%d\n" % top, b"junk\n", b""])
+        ops = []
+        for _ in range(rng.randrange(1, 12)):
+            k = rng.random()
+            if k < 0.45:
+                ops.append([1])
+            elif k < 0.6:
+                ops.append([2])
+            elif k < 0.78:
+                ops.append([0])
+            elif k < 0.86:
+                ops.append([3])
+            elif k < 0.94:
+                ops.append([4] + list(rng.choice([b"%d\n" % rng.randrange(top + 2), b"%d" % rng.randrange(top), b"x\n", b"", b"03\n"])))
+            else:
+                ops.append([rng.choice([5, 6]), rng.randrange(0, 2 * min(top, 20) + 3)])
+        cases.append((399, [[0, rng.randrange(1, len(FS_LAYOUTS)), w, rng.randrange(2)], _file_arg(start)] + ops))
+    yield "explored_path_objects", "exact", cases
+    # 11. exploration only: user subclasses whose max_bit_width is computed (op 399 kinds 1 and 2)
+    cases = []
+    widths = [0, 1, 2, 3, 5, 8, 14, 16]
+    for variant in (0, 1, 2):
+        for wc, wl in itertools.product(widths, widths):
+            if wl <= 8:
+                cases.append((399, [[1, variant, wc, wl], [5, 2 * 2 ** wl + 3], [7, max(wl - 1, 0)], [5, 2 ** wl + 2], [7, wl + 1], [10, 2 ** wl - 1], [5, 4]]))
+            cases.append((399, [[1, variant, wc, wl], [10, max(2 ** wl - 2, 0)], [5, 5], [7, wc], [10, max(2 ** wc - 2, 0)], [1], [1], [1], [7, wl], [1]]))
+            top = 2 ** wl
+            cases.append((399, [[2, variant, wc, wl], _file_arg(b"%d\n" % max(top - 2, 0)), [1], [1], [1], [2], [0], [1], [7, wc],
+                                [13] + list(b"%d\n" % (2 ** wc - 1)), [13] + list(b"%d\n" % 2 ** wc), [1], [2], [7, wl], [1], [2]]))
+            cases.append((399, [[2, variant, wc, wl], [0], [1], [1], [0], [1], [13] + list(b"%d" % (top - 1)), [13] + list(b"%d" % top)]))
+    for _ in range(4000 if big else 600):
+        variant = rng.randrange(3)
+        wc, w = rng.choice(widths + [32, 64]), rng.choice(widths + [32, 64])
+        first = [rng.choice([1, 2]), variant, wc, w]
+        ops = []
+        for _ in range(rng.randrange(1, 11)):
+            k = rng.random()
+            top = 2 ** w
+            if k < 0.45:
+                ops.append([1])
+            elif k < 0.6 and first[0] == 1:
+                ops.append([5, rng.randrange(0, 2 * min(top, 20) + 3)])
+            elif k < 0.6:
+                ops.append([rng.choice([0, 2])])
+            elif k < 0.85:
+                w = rng.choice(widths + [max(w - 1, 0), w + 1])
+                ops.append([7, w])
+            elif first[0] == 1:
+                ops.append([10, max(0, rng.choice([0, top - 2, top - 1, rng.randrange(top)]))])
+            else:
+                ops.append([13] + list(rng.choice([b"%d\n" % max(0, rng.choice([top - 1, top, top + 1])), b"7 \n", b"", b"-1\n"])))
+        if first[0] == 2:
+            ops = [_file_arg(rng.choice([None, b"0\n", b"%d\n" % (2 ** first[3] - 1), b"%d\n" % rng.randrange(2 ** first[3])]))] + ops
+        cases.append((399, [first] + ops))
+    yield "explored_width_overriding_subclasses", "exact", cases
 
 
 # ---------------------------------------------------------------- oracle
@@ -538,6 +902,24 @@ def oracle(case, ires, sres):
         if ires[1] != [1]:
             return ("C19/FileSeqCountProvider/non-ascii-content", "content %s: returned %s, file afterwards %s" % (a[1], ires[1], ires[2:]))
         return None
+    if op == 399:
+        if ires[1] == [1]:
+            return None
+        d = ires[1]
+        if a[0][0] == 0:
+            layout = a[0][1]
+            what = "symbolic-link-path" if 1 <= layout <= 5 else "hard-link-path" if layout == 6 else "relative-or-dotdot-path"
+            cut = d.index(-9) if -9 in d else len(d)
+            return ("C19/FileSeqCountProvider/" + what,
+                    "configured path = %s, width %d, initial content %s, history %s: observation %d (0 = construction, 1 = file after it, then "
+                    "result / file per step; a leading -1 in a file line = the path is no longer that kind of object or the file it refers "
+                    "to does not hold the count) is %s..., on a regular file %s..." % (FS_LAYOUTS[layout], a[0][2], a[1][:12], a[2:8], d[3], d[4:cut], d[cut + 1:]))
+        name = "SeqCountProvider" if a[0][0] == 1 else "FileSeqCountProvider"
+        return ("C19/%s.max_bit_width/subclass-override-ignored" % name,
+                "a subclass of %s whose max_bit_width is %s (constructor width %d, configured width %d), history %s: step %d differs from "
+                "the library class with the same widths assigned through its setter (detail %s)" %
+                (name, ["a property reading a shared link configuration", "a read-only computed property", "a class attribute"][a[0][1]],
+                 a[0][2], a[0][3], a[1:8], d[3], d[4:]))
     if op == 301:
         w = a[0][0]
         top = 2 ** w
